@@ -5,7 +5,7 @@ not from the server's code.
 
   * A document's life is `didOpen … didClose`; "the text received" for a version is the
     text of `didOpen`, or for `didChange` under full sync the document after applying
-    *all* `contentChanges` in order, i.e. the text of the **last** element.
+    *all* `contentChanges` in order, i.e. the text of the **last** element (no element: no text).
   * "the highest-version text received, the latest among equals" = `IsLatestMax`.
 -/
 import AstGrepVerif.Model.Lsp
@@ -18,8 +18,9 @@ open AGV AGV.Lsp
 def IsLatestMax (S : List (Version × Text)) (m : Version × Text) : Prop :=
   ∃ A B, S = A ++ m :: B ∧ (∀ p ∈ A, p.1 ≤ m.1) ∧ (∀ p ∈ B, p.1 < m.1)
 
-/-- full sync: the document after a `didChange` is the text of the last content change -/
-def changeText (ts : List Text) : Text := ts.getLastD []
+/-- full sync: the document after a `didChange` is the text of the last content change; a
+`didChange` without any content change carries no text -/
+def changeText (ts : List Text) : Option Text := ts.getLast?
 
 def isOpenOf (u : Uri) : Op → Bool
   | .open u' _ _ => decide (u' = u)
@@ -29,13 +30,17 @@ def isCloseOf (u : Uri) : Op → Bool
   | .close u' => decide (u' = u)
   | _ => false
 
-/-- the `didChange` messages for `u` up to (excluding) the first `didClose u` -/
-def changesUntilClose (txt : List Text → Text) (u : Uri) : List Op → List (Version × Text)
+/-- the texts received by `didChange` for `u` up to (excluding) the first `didClose u` -/
+def changesUntilClose (u : Uri) : List Op → List (Version × Text)
   | [] => []
-  | .close u' :: rest => if u' = u then [] else changesUntilClose txt u rest
+  | .close u' :: rest => if u' = u then [] else changesUntilClose u rest
   | .change u' v ts :: rest =>
-    if u' = u then (v, txt ts) :: changesUntilClose txt u rest else changesUntilClose txt u rest
-  | .open _ _ _ :: rest => changesUntilClose txt u rest
+    if u' = u then
+      match changeText ts with
+      | some t => (v, t) :: changesUntilClose u rest
+      | none => changesUntilClose u rest
+    else changesUntilClose u rest
+  | .open _ _ _ :: rest => changesUntilClose u rest
 
 /-- is `u` closed in this stretch of history -/
 def closedIn (u : Uri) (post : List Op) : Bool := post.any (isCloseOf u)
@@ -46,7 +51,11 @@ def received (u : Uri) : List Op → List (Version × Text)
   | [] => []
   | .open u' v t :: rest => if u' = u then (v, t) :: received u rest else received u rest
   | .change u' v ts :: rest =>
-    if u' = u then (v, changeText ts) :: received u rest else received u rest
+    if u' = u then
+      match changeText ts with
+      | some t => (v, t) :: received u rest
+      | none => received u rest
+    else received u rest
   | .close _ :: rest => received u rest
 
 end AGV.Spec.Lsp
